@@ -50,9 +50,14 @@ Proof.
                          apply IH; eapply (Hoth a); eauto end ] ]
          end].
   (* two valid members against "exactly the i0-th is valid": one of them is not the i0-th *)
-  destruct (Nat.eq_dec i i0) as [Heq | Hneq].
-  - subst i. apply H5. apply (H10 k t); [assumption |]. intros Hk. apply H. symmetry. exact Hk.
-  - apply H3. apply (H10 i s); assumption.
+  match goal with
+  | Hne : ?i = ?k -> False, Hi : nth_error ?l ?i = Some ?s, Hk : nth_error ?l ?k = Some ?t,
+    IHs : Invalid _ ?s _ -> False, IHt : Invalid _ ?t _ -> False,
+    Hoth : forall k0 t0, nth_error ?l k0 = Some t0 -> (k0 = ?i0 -> False) -> Invalid _ t0 _ |- False =>
+      destruct (Nat.eq_dec i i0) as [Heq | Hneq];
+      [ subst i; apply IHt; apply (Hoth k t); [assumption |]; intros Hx; apply Hne; symmetry; exact Hx
+      | apply IHs; apply (Hoth i s); assumption ]
+  end.
 Qed.
 
 Theorem valid_invalid_exclusive : forall E S j, Valid E S j -> Invalid E S j -> False.
@@ -172,32 +177,32 @@ Qed.
 (* ------------------------------------------------------------------ *)
 (* the wrapper: /repo/json/validator.go and the processor facade *)
 
-Theorem glue_schema_malformed : forall fuel data, validate_data_fuel fuel data None = Err "schema-json".
+Theorem glue_schema_malformed : forall fuel_of data, validate_data_with fuel_of data None = Err "schema-json".
 Proof. reflexivity. Qed.
 
-Theorem glue_data_malformed : forall fuel sj, validate_data_fuel fuel None (Some sj) = Err "data-json".
+Theorem glue_data_malformed : forall fuel_of sj, validate_data_with fuel_of None (Some sj) = Err "data-json".
 Proof. reflexivity. Qed.
 
-Theorem glue_data_not_object : forall fuel j sj,
+Theorem glue_data_not_object : forall fuel_of j sj,
   (forall o, j <> JObj o) ->
-  validate_data_fuel fuel (Some j) (Some sj) = Err "data-null" \/
-  validate_data_fuel fuel (Some j) (Some sj) = Err "data-type".
+  validate_data_with fuel_of (Some j) (Some sj) = Err "data-null" \/
+  validate_data_with fuel_of (Some j) (Some sj) = Err "data-type".
 Proof.
-  intros fuel j sj Hno. destruct j; simpl; auto. exfalso. eapply Hno; reflexivity.
+  intros fuel_of j sj Hno. destruct j; simpl; auto. exfalso. eapply Hno; reflexivity.
 Qed.
 
-Theorem glue_schema_uncompilable : forall fuel o sj t,
-  compile_root sj = Err t -> validate_data_fuel fuel (Some (JObj o)) (Some sj) = Err t.
-Proof. intros fuel o sj t H. simpl. rewrite H. reflexivity. Qed.
+Theorem glue_schema_uncompilable : forall fuel_of o sj t,
+  compile_root sj = Err t -> validate_data_with fuel_of (Some (JObj o)) (Some sj) = Err t.
+Proof. intros fuel_of o sj t H. simpl. rewrite H. reflexivity. Qed.
 
-Theorem glue_verdict : forall fuel o sj c,
+Theorem glue_verdict : forall fuel_of o sj c,
   compile_root sj = Ok c ->
-  validate (c_env c) fuel (c_root c) (JObj o) <> None ->
-  (validate_data_fuel fuel (Some (JObj o)) (Some sj) = Ok tt <-> Valid (c_env c) (c_root c) (JObj o)) /\
-  (validate_data_fuel fuel (Some (JObj o)) (Some sj) = Err "invalid" <-> Invalid (c_env c) (c_root c) (JObj o)).
+  validate (c_env c) (fuel_of c (JObj o)) (c_root c) (JObj o) <> None ->
+  (validate_data_with fuel_of (Some (JObj o)) (Some sj) = Ok tt <-> Valid (c_env c) (c_root c) (JObj o)) /\
+  (validate_data_with fuel_of (Some (JObj o)) (Some sj) = Err "invalid" <-> Invalid (c_env c) (c_root c) (JObj o)).
 Proof.
-  intros fuel o sj c Hc Hdef. simpl. rewrite Hc.
-  destruct (validate (c_env c) fuel (c_root c) (JObj o)) as [b |] eqn:Ev; [| congruence].
+  intros fuel_of o sj c Hc Hdef. simpl. rewrite Hc.
+  destruct (validate (c_env c) (fuel_of c (JObj o)) (c_root c) (JObj o)) as [b |] eqn:Ev; [| congruence].
   pose proof (validate_decides _ _ _ _ _ Ev) as D. pose proof (validate_refutes _ _ _ _ _ Ev) as R.
   destruct b.
   - split; split; intros H.
@@ -301,14 +306,35 @@ Proof.
 Qed.
 
 (* in particular the verdict of the wrapper does not depend on such members *)
-Corollary unknown_member_verdict : forall fuel data o1 o2 k v,
+Corollary unknown_member_verdict : forall fuel_of data o1 o2 k v,
   unknown_member k = true ->
-  validate_data_fuel fuel data (Some (JObj (o1 ++ (k, v) :: o2))) =
-  validate_data_fuel fuel data (Some (JObj (o1 ++ o2))).
+  validate_data_with fuel_of data (Some (JObj (o1 ++ (k, v) :: o2))) =
+  validate_data_with fuel_of data (Some (JObj (o1 ++ o2))).
 Proof.
-  intros fuel data o1 o2 k v Hk. unfold validate_data_fuel.
+  intros fuel_of data o1 o2 k v Hk. unfold validate_data_with.
   rewrite (unknown_member_irrelevant o1 o2 k v Hk). reflexivity.
 Qed.
 
 Example metadata_is_unknown : unknown_member "$metadata" = true.
 Proof. reflexivity. Qed.
+
+(* ------------------------------------------------------------------ *)
+(* $ref and its siblings in the two drafts *)
+
+Theorem draft7_ref_siblings_ignored : forall cks t,
+  find_ck get_ref cks = Some t -> assemble D7 cks = SRef t.
+Proof. intros cks t H. unfold assemble. rewrite H. reflexivity. Qed.
+
+Theorem draft2020_ref_siblings_apply : forall E cks t j,
+  find_ck get_ref cks = Some t ->
+  (Valid E (assemble D2020 cks) j <->
+   Valid E (SRef t) j /\
+   Valid E (SAllOf (simples cks ++ props_bundle cks ++ items_bundle D2020 cks)) j).
+Proof.
+  intros E cks t j H. unfold assemble. rewrite H. split.
+  - intros Hv. inversion Hv; subst. split.
+    + match goal with Hall : forall s, In s _ -> Valid E s j |- _ => apply Hall; left; reflexivity end.
+    + constructor. intros s Hin.
+      match goal with Hall : forall s, In s _ -> Valid E s j |- _ => apply Hall; right; exact Hin end.
+  - intros [Hr Hrest]. inversion Hrest; subst. constructor. intros s [<- | Hin]; auto.
+Qed.
